@@ -107,7 +107,9 @@ Qed.
 Lemma load_def : forall id body reg,
   load (SDef id body) reg =
   if mem id reg then Err (Duplicate id)
-  else match load_list body reg with Ok reg' => Ok (id :: reg') | e => e end.
+  else match load_list body reg with
+       | Ok reg' => if mem id reg' then Err (Duplicate id) else Ok (id :: reg')
+       | e => e end.
 Proof.
   intros. simpl. destruct (mem id reg); [reflexivity|].
   assert (H : forall l r,
@@ -127,7 +129,7 @@ Proof.
   destruct e; simpl.
   - destruct (mem id reg); [reflexivity | apply IH].
   - destruct (mem r reg); [apply IH | reflexivity].
-  - apply IH.
+  - destruct (mem id reg); [reflexivity | apply IH].
   - reflexivity.
 Qed.
 
@@ -149,7 +151,8 @@ Proof.
   - reflexivity.
   - rewrite load_def. simpl. destruct (mem id reg); [reflexivity|].
     rewrite run_app, <- (load_list_events body H reg).
-    destruct (load_list body reg); reflexivity.
+    destruct (load_list body reg) as [reg'|e]; [|reflexivity].
+    simpl. destruct (mem id reg'); reflexivity.
   - simpl. destruct (mem w reg); reflexivity.
 Qed.
 
@@ -159,11 +162,13 @@ Lemma run_ok : forall evs reg chk,
   no_fail evs = true ->
   refs_resolve evs reg chk = true ->
   NoDup (chk_ids evs) ->
+  NoDup (set_ids evs) ->
   (forall i, In i chk -> ~ In i (chk_ids evs)) ->
+  (forall i, In i reg -> ~ In i (set_ids evs)) ->
   incl reg chk ->
   exists reg', run evs reg = Ok reg' /\ incl reg reg' /\ (forall i, In i (set_ids evs) -> In i reg').
 Proof.
-  induction evs as [|e r IH]; intros reg chk Hnf Hrr Hnd Hdisj Hincl.
+  induction evs as [|e r IH]; intros reg chk Hnf Hrr Hnd Hns Hdisj Hfresh Hincl.
   - exists reg. simpl. repeat split; [apply incl_refl | intros i []].
   - destruct e; simpl in *.
     + (* EChk *)
@@ -171,16 +176,22 @@ Proof.
       assert (Hm : mem id reg = false).
       { apply mem_false. intro Hin. apply (Hdisj id); [apply Hincl; exact Hin | left; reflexivity]. }
       rewrite Hm.
-      destruct (IH reg (id :: chk) Hnf Hrr Hnd') as [reg' [H1 [H2 H3]]].
+      destruct (IH reg (id :: chk) Hnf Hrr Hnd' Hns) as [reg' [H1 [H2 H3]]].
       * intros i [Hi|Hi] Hin; [subst; contradiction | apply (Hdisj i Hi); right; exact Hin].
+      * exact Hfresh.
       * intros x Hx. right. apply Hincl. exact Hx.
       * exists reg'. auto.
     + (* ERef *)
       apply andb_true_iff in Hrr. destruct Hrr as [Hm Hrr]. rewrite Hm.
       apply (IH reg chk); assumption.
-    + (* ESet *)
+    + (* ESet: the id is checked once more, then registered *)
       apply andb_true_iff in Hrr. destruct Hrr as [Hm Hrr].
-      destruct (IH (id :: reg) chk Hnf Hrr Hnd Hdisj) as [reg' [H1 [H2 H3]]].
+      inversion Hns as [|? ? Hni Hns']; subst.
+      assert (Hm2 : mem id reg = false).
+      { apply mem_false. intro Hin. apply (Hfresh id Hin). left. reflexivity. }
+      rewrite Hm2.
+      destruct (IH (id :: reg) chk Hnf Hrr Hnd Hns' Hdisj) as [reg' [H1 [H2 H3]]].
+      * intros x [Hx|Hx] Hin; [subst; contradiction | apply (Hfresh x Hx); right; exact Hin].
       * intros x [Hx|Hx]; [subst; apply mem_In; exact Hm | apply Hincl; exact Hx].
       * exists reg'. split; [exact H1|]. split.
         -- intros x Hx. apply H2. right. exact Hx.
@@ -193,9 +204,12 @@ Lemma wf_events_sound : forall evs, wf_events evs = true ->
 Proof.
   intros evs H. unfold wf_events in H.
   apply andb_true_iff in H. destruct H as [H H3].
+  apply andb_true_iff in H. destruct H as [H H4].
   apply andb_true_iff in H. destruct H as [H1 H2].
   destruct (run_ok evs [] [] H1 H3) as [reg [Hr [_ Hs]]].
   - apply nodupb_NoDup. exact H2.
+  - apply nodupb_NoDup. exact H4.
+  - intros i [].
   - intros i [].
   - apply incl_refl.
   - exists reg. auto.
@@ -260,6 +274,7 @@ Proof.
   intros i Hi. apply Hs. unfold config_events in *.
   apply chk_set.
   - unfold wf_events in Hwf. apply andb_true_iff in Hwf. destruct Hwf as [Hwf _].
+    apply andb_true_iff in Hwf. destruct Hwf as [Hwf _].
     apply andb_true_iff in Hwf. destruct Hwf as [Hwf _]. exact Hwf.
   - apply subset_incl in Hsub. apply Hsub. exact Hi.
 Qed.
